@@ -106,3 +106,38 @@ Section Invite.
                end
          end.
 End Invite.
+
+(* ---------- HandleInviteV3 (pseudo-ID rooms): the invited server completes and signs the proto
+   event with the invitee's room key, then runs the common checks ---------- *)
+Record iv3_extra := {
+  v3_proto_room : bytes;               (* InviteProtoEvent.RoomID *)
+  v3_proto_type : bytes;               (* InviteProtoEvent.Type *)
+  v3_proto_membership : option bytes;  (* content.membership of the proto event; None = unreadable *)
+  v3_invited_user : bytes;             (* input.InvitedUser.String() *)
+  v3_sender_id : option bytes;         (* GetOrCreateSenderID; None = error *)
+  v3_build_ok : bool                   (* EventBuilder.Build succeeds *)
+}.
+
+(* what the built event is, as far as the model tracks it *)
+Definition v3_built (x : iv3_extra) (sid : bytes) : json :=
+  JObj [(bs "type", JStr (v3_proto_type x)); (bs "state_key", JStr sid);
+        (bs "membership", match v3_proto_membership x with Some m => JStr m | None => JNull end);
+        (bs "signed_by", JStr sid)].
+
+Definition handle_invite_v3 (x : iv3_extra) (i : inv_input) : event_result :=
+  if negb (version_known (iv_version i)) then efail OUnsupportedVersion []
+  else if negb (bytes_eqb (v3_proto_room x) (iv_req_room i)) then efail OBadJson []
+  else if negb (bytes_eqb (v3_proto_type x) m_room_member) then efail OBadJson []
+  else match v3_proto_membership x with
+       | None => efail OBadJson []
+       | Some m =>
+           if negb (bytes_eqb m s_invite) then efail OBadJson []
+           else
+             let log1 := [entry [bs "C"; v3_invited_user x; iv_req_room i; iv_version i]] in
+             match v3_sender_id x with
+             | None => efail OInternal log1
+             | Some sid =>
+                 if negb (v3_build_ok x) then efail OInternal log1
+                 else invite_common i (v3_built x sid) log1
+             end
+       end.
